@@ -11,6 +11,14 @@ CHECKS = {
          "DESIGN §4 C01",
          "Operation side: for all 96 operations the request aws-sdk-s3 encodes for base() and for each single deviation of each query/header-bound member, under 5 addressing x host-parser combinations, must reach exactly that backend method. Request side: 8 methods x 4 path kinds x every subset (size <=2, thorough 3) of ~55 query flags/members x all 8 subsets of the discriminating headers (~5e5 requests), the resolved route observed at the access hook and compared with a most-specific-match reference router built only from data/s3.json.",
          "requests whose most-specific match is not unique, or which carry a sub-resource flag foreign to the denoted operation, are counted and not judged; flag subsets larger than the bound are not covered"),
+ "C02": ("exploration", "bounded exhaustive enumeration (deviation bound 1, thorough 2) of operation inputs encoded by the official SDK and decoded by the adapter, field-wise comparison at a recording backend in a direct and a proxied configuration; every instance of each rejection mutation (duplicate, ill-typed, missing, length mismatch) on the SDK-encoded requests; on the real S3Service::call",
+         "DESIGN §4 C02",
+         "For 95 operations base() and every single deviation (thorough: every pair on different members) of every modelled input member over the alphabet of its wire position is encoded by aws-sdk-s3 1.82 (independent of s3s's codecs), sent through the real service and compared member by member (streams by bytes) with what the recording backend received, both directly and through client -> adapter -> s3s-aws Proxy -> SDK -> second adapter. Disagreements are attributed to the conversion layer, the adapter's decoder or the wire. Rejection half: on each SDK-encoded request with every optional header/query/meta member present once, every instance of {duplicate with same/other value in either order, value outside the member's type, required member removed, Content-Length +-1/0, body one byte short} must give a 4xx S3 error and an empty backend log.",
+         "aws-sdk-s3 is the trusted encoder; inputs the SDK refuses to build and members it adds itself are counted and listed, not judged; WriteGetObjectResponse is unreachable through a client (C01's listed finding); values outside the alphabets and >k simultaneous members are not covered"),
+ "C03": ("exploration", "bounded exhaustive enumeration (deviation bound 1, thorough 2) of operation outputs returned by a scripted backend and decoded by the official SDK, x response metadata; for keep-alive completion the full product of backend completion delays (every millisecond over 3.5 tick periods, thorough 10) x outcomes x consumer polling disciplines under tokio's paused clock; on the real S3Service::call",
+         "DESIGN §4 C03",
+         "For 95 operations base() and every single deviation (thorough: pairs) of every modelled output member, incl. a timestamp carrying a +08:00 offset, is returned by a scripted backend, serialised by the adapter and decoded by aws-sdk-s3, directly and through the proxied configuration, then compared member by member; every raw response is checked against the model's success status (206 iff content range) and for XML well-formedness; 5 extra-header sets x 5 status overrides on every operation. Keep-alive: CompleteMultipartUpload with backend completion after none/0..350 ms (thorough ..1000) or after n self-wakes, 10 outcomes (members set, late S3 errors), eager / spuriously-polling / slow consumers: body = declaration + whitespace + the byte-identical immediate document, header-bound members arrive as trailers named in the Trailer header, late errors are complete S3 error documents, the stream ends within one tick of completion, nothing follows the end, no lost wake-up.",
+         "aws-sdk-s3 is the standards-conforming client (it does not read trailers; those are judged on raw frames); the number of filler frames is recorded, not asserted; representations the wire cannot distinguish (absent metadata vs empty map, absent LocationConstraint vs empty element) are settled on the raw response"),
  "C19": ("fault_enumeration", "exhaustive enumeration of fault positions, abandon points and crash points of object writes, and all task interleavings (preemption-bounded for 3 tasks) at file-system-call granularity under a controlled scheduler over tokio's blocking pool, on the real s3s-fs backend",
          "DESIGN §4 C19, §2 E3",
          "Faults: body I/O error after each frame, each checksum algorithm wrong and right, corrupted signature of each chunk, through the real service. Abandon and crash points: the write future is dropped (both while its file-system call is queued and after it completed) or the tree is copied and restarted after every single step. Schedules: all interleavings of two writers and of writer + reader (thousands of complete executions), three tasks with a preemption bound, each execution replayable from its choice sequence; determinism of the scheduler is self-checked on every configuration.",
